@@ -58,6 +58,9 @@ def run(ctx):
         menu = [("k2a", [L], 1), ("k2m1", [2, L], 1), ("k2mat", [L], 0), ("k2seed", [L], 0), ("k2tiny", [L], 0),
                 ("k2huge", [2], 0), ("k2eps2", [2], 0), ("k2off", [2], 0), ("k2w1", [2], 0), ("k2w1u", [2], 0)]
     ps = ml.e2_plans(ctx, menu, MONS)
+    # the estimator flag in its other truth-valued forms (block initial labellings: the flag, not the labelling, varies)
+    ps += ml.e2_plans(ctx, [("k2nptrue", [3], 0), ("k2int1", [3], 0), ("k2npfalse", [3], 0)], MONS, conform=False,
+                      inits=lambda d: ml.all_labellings(d.Tp, d.K)[::17])
     ps += ml.e2_plans(ctx, [("long6k", [3], 0)], MONS, conform=False, inits=drivers.long_inits)
     ml.explore(ctx, ps)
     ml.e2_describe(ctx, ps, "Also: three problems with equal (T',K) but different data and estimator (k2a, k2m1, "
